@@ -35,6 +35,10 @@ ITEMS = [
     dict(file=B, kind='enum', name='BinaryOperator', derive='#[derive(Clone, Copy, PartialEq, Eq, Structural)]'),
     dict(file='src/nodes/expressions/mod.rs', kind='enum', name='Expression'),
     dict(file=B, kind='struct', name='BinaryExpression'),
+    dict(file='src/nodes/expressions/unary.rs', kind='enum', name='UnaryOperator', derive='#[derive(Clone, Copy, PartialEq, Eq, Structural)]'),
+    dict(file='src/nodes/expressions/unary.rs', kind='struct', name='UnaryExpression'),
+    dict(file='src/nodes/expressions/if_expression.rs', kind='struct', name='IfExpression'),
+    dict(file='src/nodes/expressions/if_expression.rs', kind='struct', name='ElseIfExpressionBranch'),
     dict(file='src/process/evaluator/lua_value.rs', kind='enum', name='LuaValue'),
     dict(file='src/process/evaluator/mod.rs', kind='struct', name='Evaluator'),
     # callees kept as signatures
@@ -46,6 +50,15 @@ ITEMS = [
     dict(file=B, kind='fn', impl='BinaryExpression', name='operator', props=['C02', 'C08'],
          ensures=['r == self.spec_operator()'],
          desc='getter: returns the operator field'),
+    dict(file=B, kind='fn', impl='BinaryExpression', name='right', props=['C02'],
+         ensures=['*r == self.spec_right()'], desc='getter: returns the right operand'),
+    dict(file='src/nodes/expressions/unary.rs', kind='fn', impl='UnaryExpression', name='get_expression', props=['C02'],
+         ensures=['*r == self.spec_expression()'], desc='getter: returns the operand'),
+    dict(file='src/nodes/expressions/if_expression.rs', kind='fn', impl='IfExpression', name='get_else_result', props=['C02'],
+         ensures=['*r == self.spec_else_result()'], desc='getter: returns the else result'),
+    dict(file='src/generator/utils.rs', kind='fn', name='expression_ends_with_prefix', props=['C02'],
+         ensures=['ends_like_prefix(*expression) ==> r'], decreases='expression',
+         desc='for EVERY expression tree (unbounded depth, by structural induction): an expression whose text ends with a prefix expression (O-stmt: through binary right operands, unary operands, else results; call / parenthese / name / field / index / type instantiation) is reported, so write_block puts a `;` before a following `(`'),
     dict(file=B, kind='fn', impl='BinaryOperator', name='get_precedence', spec_twin=True, twin='vk_binary_precedes_contract', props=['C02'],
          ensures=['r == self.spec_get_precedence()'],
          desc='get_precedence equals its own body read as a specification (so callers are verified against the real table)'),
@@ -193,6 +206,8 @@ def build(repo, out_path, prop=None, extra=(), dropped=()):
                 ens += '\n    requires\n' + ''.join('        %s,\n' % e for e in spec['requires'])
             if spec.get('ensures'):
                 ens += '\n    ensures\n' + ''.join('        %s,\n' % e for e in spec['ensures'])
+            if spec.get('decreases'):
+                ens += '    decreases %s,\n' % spec['decreases']
             if spec.get('external_body'):
                 piece = '// signature from %s (body not extracted: rejected by Verus)\n#[verifier::external_body]\n%s%s{ unimplemented!() }\n' % (
                     spec['file'], header2, ens)
